@@ -48,7 +48,8 @@ def run(rep, tier):
     from props import suvfam
     import suvfam_scen
     fam = suvfam.Fam(rep, "C01", sub=".l1")
-    fam.add_life(names=["eq"])
+    fam.list_ns = (4, 9, 16, 25, 36)          # the supported squares: list -> vector stores the list exactly (other lengths: C14)
+    fam.add_life(names=["eq", "GetComponents", "ctor_list"])
     fam.run(scenario=suvfam_scen.scenario)
 
 
